@@ -9,6 +9,7 @@ query   generated forests of Entry/Section/Directive nodes (public constructors,
 bool    boolean expressions over the predicate algebra x values: for every value on which no leaf predicate
         raises, interpreted test() == compiled to_pyfunc() == plain boolean evaluation of the expression.
 """
+import json
 import operator
 import re
 
@@ -25,7 +26,12 @@ RULE = ("query: forests of 1-3 documents (depth <= 4, names from a 5-name pool w
         "entry points select/find/[] on documents, Results, inner nodes and a ConfigComponent. Non-trivial: "
         ">= 2 levels or deep, a negation inside the query, >= 1 node returned and >= 1 candidate rejected; "
         "distinct by (forest, query, options). bool: expression x value pairs; non-trivial = expression has a "
-        "negation and a binary connective and takes both truth values over the value pool.")
+        "negation and a binary connective and takes both truth values over the value pool. Round 7: a forest is "
+        "drawn from one of four alphabets (ASCII scalars; text outside ASCII with non-trivial case mappings - sharp "
+        "s, sigma, accented letters, Kelvin sign; nested list/dict attribute values as from_dict keeps them; both), "
+        "the same text appears among predicate arguments and boolean values, levels are also aimed at a real node "
+        "with a case-insensitive predicate on its name/attribute in another letter case and with the multi-value "
+        "literal form (name, v1, v2, ...).")
 ASSUMPTIONS = [
     "reference matcher and boolean evaluator are harness code (self-tested on fixed cases); Python's own "
     "operators / str methods / re.search define what a leaf predicate means and whether it raises",
@@ -42,6 +48,12 @@ EXCLUDED = [
     "readings and skipped (label ambiguous-skip) only if they give different results",
     "where / choose / upto / nth / attribute-style access / integer and slice indexing",
     "_EntryQuery objects inside multi-attribute tuples (undocumented), names that are not strings",
+    "case-insensitive predicates on text outside ASCII where comparing lower-cased and comparing case-folded strings "
+    "give different answers (e.g. 'ASS' vs sharp s): the expected result is computed under both readings and the "
+    "(query, tree) is skipped (label ambiguous-skip(lower-vs-casefold)) / the plain truth value is not demanded "
+    "(bool; interpreted == compiled still is) only if they differ",
+    "isin applied to an unhashable attribute value: 'raises' and 'not a member' are both accepted readings "
+    "(evaluated under both, skipped if the results differ)",
 ]
 
 
@@ -89,9 +101,17 @@ def _apply_fn(spec, v):
         raise _Raised()
 
 
+def _low(s, model):
+    """'case-insensitive' has two defensible readings for text outside ASCII: compare the lower-cased or the
+    case-folded strings (they differ for sharp s, final sigma, ligatures ...).  Both sides are always normalised
+    the same way; a model name ending in 'f' is the case-folding reading."""
+    return s.casefold() if model.endswith("f") else s.lower()
+
+
 def _leaf_eval(e, v, model):
-    """truth value of one leaf predicate on v, or _Raised.  model 'A': lower-casing a non-string raises;
-    model 'B': a case-insensitive predicate sees a non-string value unchanged."""
+    """truth value of one leaf predicate on v, or _Raised.  model 'A': lower-casing a non-string raises, and so
+    does a membership test of an unhashable value; model 'B': a case-insensitive predicate sees a non-string
+    value unchanged, membership of an unhashable value is decided by equality.  'Af' / 'Bf': see _low."""
     op = e[0]
     if op == "T":
         return True
@@ -100,18 +120,20 @@ def _leaf_eval(e, v, model):
     if op == "p1":
         if e[2]:        # caseless pred(fn)
             if isinstance(v, str):
-                v = v.lower()
-            elif model == "A":
+                v = _low(v, model)
+            elif model[0] == "A":
                 raise _Raised()
         return _apply_fn(e[1], v)
     arg = e[1]
     if op in _CASELESS:
         op = _CASELESS[op]
-        arg = arg.lower()
+        arg = _low(arg, model)
         if isinstance(v, str):
-            v = v.lower()
-        elif model == "A":
+            v = _low(v, model)
+        elif model[0] == "A":
             raise _Raised()
+    if op == "isin" and model[0] == "A" and isinstance(v, (list, dict)):
+        raise _Raised()
     try:
         return bool(_LEAF[op](v, arg))
     except Exception:
@@ -321,6 +343,8 @@ def _fresh(v):
         return int(str(v))
     if isinstance(v, str):
         return "".join(list(v)) if v else v
+    if isinstance(v, (list, dict)):
+        return json.loads(json.dumps(v))
     return v
 
 
@@ -456,6 +480,20 @@ def check_query(case):
     exp_b = ref_select(levels, start, deep, roots, cxb, {"rejected": False})
     labels = ["via=" + via, "levels=%d" % len(levels), "deep=%d" % deep, "roots=%d" % roots,
               "build=" + ("from_dict" if case.get("dict") is not None else "ctor")]
+    tree_txt = json.dumps([case.get("docs"), case.get("dict")])
+    query_txt = json.dumps(levels)
+    if "\\u" in tree_txt:
+        labels.append("tree:non-ascii-text")
+    if "\\u" in query_txt:
+        labels.append("query:non-ascii-text")
+    if any(isinstance(a, (list, dict)) for n in preorder(start) for a in n.attrs):
+        labels.append("tree:unhashable-attr")
+    if "\\u" in tree_txt or "\\u" in query_txt:
+        # text outside ASCII: the case-folding reading of 'case-insensitive' must give the same answer too
+        for mdl in ("Af", "Bf"):
+            exp_f = ref_select(levels, start, deep, roots, Ctx(mdl), {"rejected": False})
+            if [id(x) for x in exp_f] != [id(x) for x in exp_a]:
+                return {"nontrivial": False, "labels": labels + ["ambiguous-skip", "ambiguous-skip(lower-vs-casefold)"]}
     if case.get("prequery"):
         labels.append("queried-before")
     if case.get("warm") and case.get("dict") is None and warm["done"]:
@@ -467,10 +505,10 @@ def check_query(case):
     exp_ids = [id(m.real) for m in exp_a]
     if got_ids != exp_ids:
         def show(real_nodes):
-            return ["%s%r" % (n._name, tuple(n.attrs)) for n in real_nodes]
+            return [ascii("%s%r" % (n._name, tuple(n.attrs))) for n in real_nodes]
         kind = "wrong order" if sorted(got_ids) == sorted(exp_ids) else "wrong node set"
-        raise Violation("%s: query %r (via %s, deep=%s, roots=%s) returned %r, the matching nodes are %r"
-                        % (kind, levels, via, deep, roots, show(got.children), show([m.real for m in exp_a])),
+        raise Violation("%s: query %s (via %s, deep=%s, roots=%s) returned %r, the matching nodes are %r"
+                        % (kind, ascii(levels), via, deep, roots, show(got.children), show([m.real for m in exp_a])),
                         levels=levels, via=via, deep=deep, roots=roots)
     if len(got) != len(exp_a):
         raise Violation("len(result) = %d but it has %d matching nodes" % (len(got), len(exp_a)))
@@ -496,7 +534,12 @@ def check_query(case):
 
 # ---- boolean differential --------------------------------------------------------------------------
 
-VALUE_POOL = ["a", "b", "Ab", "c", "ab", "x", "X1", "y", "A", "", "aB", 1, 2, 10, 0, -1]
+# text whose case mappings are not the ASCII ones: sharp s (lower: itself, casefold: "ss", upper: "SS"), capital
+# sharp s, sigma (word-final capital sigma lowers to the final form, folds to the ordinary one), accented letters
+# with a simple mapping, dotted capital I (lower-cases to two characters), a ligature, the Kelvin sign
+_USTR = ["a\u00df", "ASS", "ass", "A\u1e9e", "A\u03a3", "a\u03c3", "a\u03c2", "\u00c9a", "\u00e9a", "\u0130", "\ufb01x", "FIX",
+         "\u212a1", "k1"]
+VALUE_POOL = ["a", "b", "Ab", "c", "ab", "x", "X1", "y", "A", "", "aB", 1, 2, 10, 0, -1, ["x", 1]] + _USTR
 
 
 def check_bool(case):
@@ -510,8 +553,11 @@ def check_bool(case):
     _derived = [obj & never, obj | Q.eq("zz-other"), ~obj, never & obj, never | obj]
     fn_after = obj.to_pyfunc()
     leaves = bexpr_leaves(e)
-    n_true = n_false = n_skip = 0
+    n_true = n_false = n_skip = n_fold = n_uni = 0
+    e_uni = "\\u" in json.dumps(e)
     for v in case["values"]:
+        uni = e_uni or (isinstance(v, str) and not v.isascii())
+        n_uni += bool(uni)
         clean = True
         for lf in leaves:
             try:
@@ -519,22 +565,37 @@ def check_bool(case):
             except _Raised:
                 clean = False
                 break
+        if clean and uni:
+            for lf in leaves:
+                try:
+                    _leaf_eval(lf, v, "Af")
+                except _Raised:
+                    clean = False
+                    break
         if not clean:
             n_skip += 1
             continue
         want = bool(bexpr_eval(e, v, "A"))
+        # outside ASCII 'case-insensitive' may mean lower-cased or case-folded comparison: the plain truth value
+        # is demanded only where both readings agree; interpreted == compiled is demanded always
+        settled = not uni or bool(bexpr_eval(e, v, "Af")) == want
+        if not settled:
+            n_fold += 1
         interp = obj.test(v)
         called = obj(v)
         comp = fn(v)
         if bool(fn_after(v)) != bool(comp):
-            raise Violation("expression %r on %r: compiled before deriving other expressions from it gives %r, "
-                            "compiled afterwards %r" % (e, v, comp, fn_after(v)), expr=e, value=v)
+            raise Violation("expression %s on %s: compiled before deriving other expressions from it gives %r, "
+                            "compiled afterwards %r" % (ascii(e), ascii(v), comp, fn_after(v)), expr=e, value=v)
         if bool(interp) != bool(comp):
-            raise Violation("expression %r on %r: interpreted test() gives %r, compiled to_pyfunc() gives %r"
-                            % (e, v, interp, comp), expr=e, value=v)
-        if bool(interp) != want or bool(called) != want:
-            raise Violation("expression %r on %r: test() gives %r, boolean evaluation of the expression gives %r"
-                            % (e, v, interp, want), expr=e, value=v)
+            raise Violation("expression %s on %s: interpreted test() gives %r, compiled to_pyfunc() gives %r"
+                            % (ascii(e), ascii(v), interp, comp), expr=e, value=v)
+        if bool(interp) != bool(called):
+            raise Violation("expression %s on %s: test() gives %r, calling the expression gives %r"
+                            % (ascii(e), ascii(v), interp, called), expr=e, value=v)
+        if settled and bool(interp) != want:
+            raise Violation("expression %s on %s: test() gives %r, boolean evaluation of the expression gives %r"
+                            % (ascii(e), ascii(v), interp, want), expr=e, value=v)
         if want:
             n_true += 1
         else:
@@ -551,6 +612,12 @@ def check_bool(case):
         labels.append("has:caseless")
     if n_true + n_false == 0:
         labels.append("all-values-skipped")
+    if n_uni:
+        labels.append("non-ascii-text")
+    if n_fold:
+        labels.append("lower-vs-casefold-differ(only interpreted==compiled demanded)")
+    if any(isinstance(v, (list, dict)) for v in case["values"]):
+        labels.append("unhashable-value")
     nt = bexpr_has(e, ("not",)) and bexpr_has(e, ("and", "or")) and n_true > 0 and n_false > 0
     return {"nontrivial": nt, "labels": labels, "key": e}
 
@@ -562,6 +629,12 @@ def check_bool(case):
 NAMES = ["a", "b", "Ab", "c", "ab", 2.5]   # a numeric name: from_dict builds them from numeric YAML/JSON keys (ints would be index access in [])
 ATTRS = ["x", "X1", "y", "ab", "A", 1, 2, 10, 0, ""]   # 0 and "" : falsy literals are ordinary attribute values
 _STRS = ["a", "A", "b", "x", "X", "ab", "1", "y", ""]
+# alphabets of the two extra input classes of a forest (see _decode_docs): text outside ASCII with non-trivial case
+# mappings, and attribute values that are not scalars (from_dict keeps nested lists of a JSON/YAML document as
+# attributes; dicts and lists are unhashable, compare by value and are containers for `contains`)
+NAMES_U = ["a", "a\u00df", "ASS", "\u00c9a", "\u00e9a", "A\u03a3", "a\u03c3"]
+ATTRS_U = ["x", "a\u00df", "ASS", "ass", "\u00c9a", 1, "\u00e9a", "A\u03a3", "a\u03c2", 0, "", "\u212a1", "k1"]
+ATTRS_NESTED = [["x", 1], {"k": 1}, [], ["x", 1], ["ab"]]
 
 _fnspec = st.one_of(st.just(["raise"]), st.tuples(st.just("sw"), st.sampled_from(["a", "x", "A"])).map(list),
                     st.tuples(st.just("gt"), st.sampled_from([1, 2, "a"])).map(list),
@@ -577,6 +650,16 @@ _bleaf = st.one_of(
     st.tuples(st.sampled_from(["ieq", "isw", "iew", "ict"]), st.sampled_from(["a", "A", "AB", "x", "X1", "B", "Y"])).map(list),
     st.tuples(st.just("p1"), _fnspec, st.booleans()).map(list),
     st.sampled_from([["T"], ["F"]]),
+)
+# the same tests on text outside ASCII (arguments from the pool the values / names / attributes come from, and
+# single characters of it)
+_bleaf_u = st.one_of(
+    st.tuples(st.sampled_from(["ieq", "isw", "iew", "ict"]),
+              st.sampled_from(_USTR + ["\u00df", "S", "SS", "\u03a3", "\u00c9", "A", "a"])).map(list),
+    st.tuples(st.sampled_from(["eq", "sw", "ew", "ct"]), st.sampled_from(_USTR + ["\u00df", "\u00e9"])).map(list),
+    st.tuples(st.just("p1"), st.tuples(st.sampled_from(["eq", "sw"]),
+                                       st.sampled_from(["ass", "a\u00df", "a\u03c3", "\u00e9a", "a", "k1"])).map(list),
+              st.booleans()).map(list),
 )
 
 
@@ -599,11 +682,11 @@ _btwin = st.one_of(
               st.booleans(), st.booleans()).map(_mk_twin),
     st.tuples(_bleaf, st.sampled_from(["and", "or"]), st.booleans()).map(
         lambda p: [p[1], p[0], ["not", list(p[0])] if p[2] else list(p[0])]))
-_bexpr = st.recursive(st.one_of(_bleaf, _bleaf, _bleaf, _btwin), lambda ch: st.one_of(
+_bexpr = st.recursive(st.one_of(_bleaf, _bleaf, _bleaf, _btwin, _bleaf_u), lambda ch: st.one_of(
     st.tuples(st.just("not"), ch).map(list), st.tuples(st.just("and"), ch, ch).map(list),
     st.tuples(st.just("or"), ch, ch).map(list), st.tuples(st.just("not"), ch).map(list)), max_leaves=5)
 
-_attrpred = st.one_of(st.tuples(st.just("lit"), st.sampled_from(ATTRS)).map(list),
+_attrpred = st.one_of(st.tuples(st.just("lit"), st.sampled_from(ATTRS + ATTRS + ["a\u00df", "ASS", "\u00e9a", ["x", 1], []])).map(list),
                       st.tuples(st.just("pred"), _bexpr).map(list), st.tuples(st.just("fn"), _fnspec).map(list))
 _entryq = st.recursive(st.tuples(st.sampled_from(["any", "all"]), _attrpred).map(list), lambda ch: st.one_of(
     st.tuples(st.just("enot"), ch).map(list), st.tuples(st.just("eand"), ch, ch).map(list),
@@ -643,11 +726,17 @@ class _Pool(object):
 
 def _decode_docs(data):
     pool = _Pool(data)
+    # input classes of the whole forest: plain ASCII scalars (as text-file parsers produce them), text outside
+    # ASCII, nested (non-scalar) attribute values as from JSON/YAML documents - or both
+    names = NAMES_U if pool.take([0, 0, 0, 1]) else NAMES
+    attrs_pool = ATTRS_U if names is NAMES_U else ATTRS
+    if pool.take([0, 0, 1]):
+        attrs_pool = attrs_pool + ATTRS_NESTED
 
     def node(depth):
         k = pool.take("ESDE")
-        name = pool.take(NAMES)
-        attrs = [pool.take(ATTRS) for _ in range(pool.take([0, 1, 1, 2, 3]))]
+        name = pool.take(names)
+        attrs = [_copy_value(pool.take(attrs_pool)) for _ in range(pool.take([0, 1, 1, 2, 3]))]
         tup = pool.take([True, False])
         n_kids = pool.take([0, 0, 1, 2, 2, 3]) if depth < 3 else 0
         return {"k": k, "n": name, "a": attrs, "t": tup, "c": [node(depth + 1) for _ in range(n_kids)]}
@@ -663,17 +752,25 @@ def _decode_docs(data):
     return docs
 
 
+def _copy_value(v):
+    return json.loads(json.dumps(v)) if isinstance(v, (list, dict)) else v
+
+
 def _copy(t):
-    return {"k": t["k"], "n": t["n"], "a": list(t["a"]), "t": t["t"], "c": [_copy(c) for c in t["c"]]}
+    return {"k": t["k"], "n": t["n"], "a": [_copy_value(a) for a in t["a"]], "t": t["t"],
+            "c": [_copy(c) for c in t["c"]]}
 
 
 _docs = st.binary(min_size=90, max_size=260).map(_decode_docs)
 
-_dscalar = st.sampled_from(ATTRS)
-_SNAMES = [n for n in NAMES if isinstance(n, str)]      # (dict keys of a JSON case have to be strings)
-_dict = st.recursive(st.dictionaries(st.sampled_from(_SNAMES), st.one_of(_dscalar, st.lists(_dscalar, max_size=3)), max_size=4),
+_dscalar = st.sampled_from(ATTRS + ["a\u00df", "ASS"])
+_SNAMES = [n for n in NAMES if isinstance(n, str)] + ["a\u00df"]      # (dict keys of a JSON case have to be strings)
+# a list value becomes the attributes of one node; lists nested in it stay attribute values (a dict in first position
+# would turn the list into child nodes: that shape is generated separately as st.lists(ch))
+_dlist = st.lists(st.one_of(_dscalar, _dscalar, st.lists(_dscalar, max_size=2)), max_size=3)
+_dict = st.recursive(st.dictionaries(st.sampled_from(_SNAMES), st.one_of(_dscalar, _dlist), max_size=4),
                      lambda ch: st.dictionaries(st.sampled_from(_SNAMES), st.one_of(_dscalar, ch, st.lists(ch, max_size=3),
-                                                                                 st.lists(_dscalar, max_size=3)), max_size=4),
+                                                                                 _dlist), max_size=4),
                      max_leaves=8)
 
 _VIAS = ["select", "find", "getitem", "result", "result-getitem", "component", "component-getitem", "subnode",
@@ -700,6 +797,13 @@ def _start_specs(case):
     return docs[0]
 
 
+def _caseless_for(draw, text):
+    op, how, neg = draw(st.tuples(st.sampled_from(["ieq", "isw", "iew", "ict"]), st.sampled_from([0, 0, 1, 2, 3]),
+                                  st.sampled_from([False, False, False, True])))
+    arg = [text, text.upper(), text.lower(), text.swapcase()][how]
+    return ["not", ["not", [op, arg]]] if neg else [op, arg]
+
+
 @st.composite
 def _query_case(draw):
     # the forest is drawn first: when Hypothesis caps the size of an example it zeroes the *later* draws
@@ -720,15 +824,32 @@ def _query_case(draw):
             if not nodes:
                 break
             node = nodes[draw(st.integers(0, len(nodes) - 1))]
-            aim = draw(st.sampled_from(["no", "name", "name", "name+attr", "none", "none+attr", "name+attr"]))
+            aim = draw(st.sampled_from(["no", "name", "name", "name+attr", "none", "none+attr", "name+attr",
+                                        "iname", "none+iattr", "name+values", "none+values"]))
             if lv["form"] != "entry":
                 if aim.startswith("name"):
                     lv["name"] = ["lit", node["n"]]
                 elif aim.startswith("none"):
                     lv["name"] = ["none"]
-                if aim.endswith("attr") and lv["form"] == "tuple" and node["a"] and \
+                elif aim == "iname" and isinstance(node["n"], str):
+                    # a case-insensitive test aimed at the name of a real node, written in another letter case
+                    lv["name"] = ["pred", _caseless_for(draw, node["n"])]
+                strs = [a for a in node["a"] if isinstance(a, str)]
+                if aim.endswith("+values") and lv["form"] == "tuple" and node["a"]:
+                    # the documented multi-value form conf[name, v1, v2, ...] ("some attribute equals v1 or v2 ..."):
+                    # plain values only, one of them an attribute of a real node, at any position among the others
+                    vals = [["lit", _copy_value(v)] for v in draw(st.lists(st.sampled_from(ATTRS + ["zz", ["x", 1]]),
+                                                                       min_size=1, max_size=2))]
+                    vals.insert(draw(st.integers(0, len(vals))),
+                                ["lit", _copy_value(node["a"][draw(st.sampled_from([-1, -1, 0]))])])
+                    lv["attrs"] = vals
+                elif aim.endswith("+iattr") and lv["form"] == "tuple" and strs and \
                         not (lv["attrs"] and lv["attrs"][0][0] == "entry"):
-                    lv["attrs"] = lv["attrs"][:2] + [["lit", node["a"][-1]]]
+                    lv["attrs"] = lv["attrs"][:2] + [["pred", _caseless_for(draw, strs[-1])]]
+                elif aim.endswith("attr") and lv["form"] == "tuple" and node["a"] and \
+                        not (lv["attrs"] and lv["attrs"][0][0] == "entry"):
+                    # (mostly the last attribute: the earlier ones have to be examined and passed over first)
+                    lv["attrs"] = lv["attrs"][:2] + [["lit", _copy_value(node["a"][draw(st.sampled_from([-1, -1, 0]))])]]
             nodes = node["c"]
     return case
 
@@ -765,6 +886,17 @@ def selftest():
     assert ev(["not", ["ieq", "x"]], 1, "B") is True
     assert ev(["isin", ["a", 1]], 1) is True and ev(["isin", ["a", 1]], "b") is False
     assert ev(["mt", "b$"], "ab") is True
+    # text outside ASCII: both readings of 'case-insensitive'; membership of an unhashable value
+    assert ev(["ieq", "a\u00df"], "a\u00df", "A") is True and ev(["ieq", "a\u00df"], "a\u00df", "Af") is True
+    assert ev(["ieq", "ASS"], "a\u00df", "A") is False and ev(["ieq", "ASS"], "a\u00df", "Af") is True
+    assert ev(["ict", "\u03a3"], "A\u03a3", "A") is False and ev(["ict", "\u03a3"], "A\u03a3", "Af") is True
+    assert ev(["ieq", "\u00c9A"], "\u00e9a", "A") is True and ev(["isw", "K"], "\u212a1", "B") is True
+    assert ev(["isin", ["x", 1]], ["x", 1], "B") is False and ev(["ct", "x"], ["x", 1]) is True
+    try:
+        ev(["isin", ["x", 1]], ["x", 1], "A")
+        raise AssertionError("model A: membership test of an unhashable value raises")
+    except _Raised:
+        pass
     # matcher on a fixed tree:  doc -> a(x)[ b(1) c() ], b(x, 2)[ a()[ b(3) ] ], a()
     def n(name, attrs, kids=()):
         m = M(name, list(attrs), None)
